@@ -19,11 +19,14 @@ META = {
     'technique': 'exhaustive enumeration of read compositions of small multi-frame byte streams on the real Connection',
     'text': 'For protocol v1-v4 and every stream of 1-2 (thorough: 1-3) frames drawn from {response with 0/1/7-byte body '
             '(per-request recording decoder), RESULT void (driver decoder), EVENT STATUS_CHANGE (stream -1)}, in both '
-            'stream-id orders, every composition of the byte stream into reads (complete for streams <= 18 (thorough 19) '
-            'bytes; all splittings with <= 3 cuts and the one-byte-at-a-time split for longer ones) is fed to a handshaken '
-            'connection through feed() = _iobuf.write + process_io_buffer.  After each read the deliveries to the handlers '
-            'registered by send_msg / register_watchers must equal, in order and with exact (stream, opcode, flags, body), '
-            'the frames whose last byte has arrived: nothing early, nothing missing, nothing twice, connection not defunct.',
+            'stream-id orders, the byte stream is fed to a handshaken connection through feed() = _iobuf.write + '
+            'process_io_buffer under every composition into reads for short streams (quick: <= 17 bytes with 8-byte headers, the '
+            '18-byte two-empty-frames stream with 9-byte headers, one version per header size; thorough: every stream <= 19 '
+            'bytes) and, for the others, every splitting with <= 2 (thorough 3; 2 for three frames) cuts anywhere, every splitting '
+            'with <= 3 (thorough 4; 3 for three frames) cuts each within 2 bytes of a header start / header end / frame end, and '
+            'one byte per read.  After each read the deliveries to the handlers registered by send_msg / register_watchers must '
+            'equal, in order and with exact (stream, opcode, flags, body), the frames whose last byte has arrived: nothing early, '
+            'nothing missing, nothing twice, connection not defunct.',
     'note': 'VConnection.feed models what every shipped reactor does with received bytes.  Header fields other than '
             'length/stream/opcode/flags are not varied; bodies of responses are opaque (recording decoder) except RESULT void '
             'and EVENT which go through the driver decoder.',
